@@ -5,21 +5,9 @@
    it), and for the standard's own examples the result 6.10.3.5 prints.
    Every family is addressed by index (NCasesOf / CaseAt, mixed radix), never
    through set enumeration, so ids are stable across runs and seeds.        *)
-EXTENDS Integers, Sequences, SequencesExt, TLC, Printer
+EXTENDS Integers, Sequences, SequencesExt, TLC, Printer, DirLines
 
-It(s, w) == [s |-> s, w |-> w]               \* source item: spelling + white space before it ("", " ", "\n")
-
-(* source text -> items (Lexer's TokEnd decides the token boundaries) *)
-RECURSIVE LexItemsFrom(_, _, _, _)
-LexItemsFrom(s, i, w, acc) ==
-  IF i > Len(s) THEN acc
-  ELSE IF Ch(s, i) = "\n" THEN LexItemsFrom(s, i + 1, "\n", acc)
-  ELSE IF Ch(s, i) \in {" ", "\t"} THEN LexItemsFrom(s, i + 1, IF w = "\n" THEN w ELSE " ", acc)
-  ELSE LET e == TokEnd(s, i) IN
-       IF e = 0 THEN Append(acc, It(BAD, w)) ELSE LexItemsFrom(s, e, "", Append(acc, It(SubSeq(s, i, e - 1), w)))
-Src(s) == LexItemsFrom(s, 1, "", <<>>)
-
-MacroDef(name, fun, params, va, body) == [name |-> name, fun |-> fun, params |-> params, va |-> va, body |-> Src(body)]
+(* It, Src, MacroDef: DirLines.tla (source items; the reader of directive lines, family F16) *)
 Obj(name, body) == MacroDef(name, FALSE, <<>>, FALSE, body)
 Fun(name, params, body) == MacroDef(name, TRUE, params, FALSE, body)
 FunV(name, params, body) == MacroDef(name, TRUE, params, TRUE, body)
@@ -421,20 +409,64 @@ F15Case(i) == LET j == i - 1
                         [] OTHER -> "ID(a\n" \o line \o "\nX Y)", "", "hash-first-on-line")
 NF15 == 3 * Len(F15Starts) * Len(F15Tails)
 
+(* ---- F16: WHERE A DIRECTIVE ENDS (DirLines.tla): every directive scenario with a new-line written at every
+   token boundary of the directive line, the rest of the would-be directive starting the next line (at column 0
+   or after a blank), at the top level / in a processed group / in a skipped group.  The Level A reader of
+   DirLines.tla turns the text into definitions + text lines (6.10p2: the directive is ended by the new-line);
+   the machine replaces the text lines.  A case carries its text verbatim (`text`) and the reader's verdict
+   (`dcls`: "bad" = a diagnostic is required). *)
+F16Case(i) == LET c == DCoord(i)
+                  ok == DValid(c)
+                  sc == DScen[c.s]
+                  text == IF ok THEN DText(c) ELSE ""
+                  r == IF ok THEN ReadText(text) ELSE SetCls(R0, "excluded")
+              IN [fam |-> "F16", id |-> i, defs |-> r.defs, inv |-> r.inv, want |-> "",
+                  tag |-> "dirend:" \o (IF sc.dir[1] = "#" THEN sc.dir[2] ELSE "text") \o ":k" \o ToString(c.k),
+                  text |-> text, dcls |-> r.cls]
+NF16 == NDir
+
+(* ---- F17: HIDE SETS OF THREE AND MORE NAMES THAT DIFFER BETWEEN THE MACRO NAME AND THE CLOSING PARENTHESIS.
+   The name g of the invocation `g (1)` and its parentheses reach each other by different routes: the name comes
+   out of an object-like macro (N), is handed on as an argument once or twice (ID(..), the parameter x of the
+   host), or is written as it is; the parentheses are written in the host's replacement list or behind the
+   host's invocation (and then perhaps handed through ID together with the host).  So the two hide sets share
+   some names and the name's has others BEFORE, BETWEEN and AFTER the shared ones (the order in which the names
+   were added).  g's replacement list probes every macro on the routes (N, ID(2), the host), so each member
+   of the hide set of the expansion is observable.  6.10.3.4p4 allows two hide sets at each such invocation
+   (the name's own, or its intersection with the parenthesis'); anything else - a name of the intersection
+   forgotten, a name kept that only SOME of the name's expansions contribute - shows as a third result. *)
+F17NameW == <<"g", "N", "ID(g)", "ID(N)", "ID(ID(N))">>
+F17NameC == <<"x", "ID(x)", "ID(ID(x))", "ID(N)", "N">>
+F17Paren == <<" (1)", "">>
+F17Args == <<"g", "N", "ID(N)">>
+F17Case(i) == LET j == i - 1
+                  k == j % 3                               \* how the host is invoked
+                  p == F17Paren[((j \div 3) % 2) + 1]
+                  n == ((j \div 6) % 5) + 1
+                  h == j \div 30                           \* 0: object-like host W; 1..3: function-like host C(x) with argument F17Args[h]
+                  host == IF h = 0 THEN "W" ELSE "C(" \o F17Args[h] \o ")"
+                  hdef == IF h = 0 THEN Obj("W", F17NameW[n] \o p) ELSE Fun("C", <<"x">>, F17NameC[n] \o p)
+                  probe == IF h = 0 THEN "W" ELSE "C(3)"
+              IN CaseT("F17", i, <<Obj("N", "g"), Fun("ID", <<"x">>, "x"), Fun("g", <<"a">>, "[a N ID(2) " \o probe \o "]"), hdef>>,
+                       CASE k = 0 -> host [] k = 1 -> host \o " (1)" [] OTHER -> "ID(" \o host \o ") (1)", "", "hs-routes")
+NF17 == 4 * 5 * 2 * 3
+
 (* FS: the small families that are always run completely, enumerated by one TLC run;
    FD: the same for the two families with dynamic macros (one order of argument pre-expansion only) *)
-NFS == NF5 + NF9 + NF10 + NF11 + NF12 + NF14 + NF15
+NFS == NF5 + NF9 + NF10 + NF11 + NF12 + NF14 + NF15 + NF16 + NF17
 FSCase(i) == IF i <= NF5 THEN F5Case(i) ELSE IF i <= NF5 + NF9 THEN F9Case(i - NF5)
              ELSE IF i <= NF5 + NF9 + NF10 THEN F10Case(i - NF5 - NF9)
              ELSE IF i <= NF5 + NF9 + NF10 + NF11 THEN F11Case(i - NF5 - NF9 - NF10)
              ELSE IF i <= NF5 + NF9 + NF10 + NF11 + NF12 THEN F12Case(i - NF5 - NF9 - NF10 - NF11)
              ELSE IF i <= NF5 + NF9 + NF10 + NF11 + NF12 + NF14 THEN F14Case(i - NF5 - NF9 - NF10 - NF11 - NF12)
-             ELSE F15Case(i - NF5 - NF9 - NF10 - NF11 - NF12 - NF14)
+             ELSE IF i <= NF5 + NF9 + NF10 + NF11 + NF12 + NF14 + NF15 THEN F15Case(i - NF5 - NF9 - NF10 - NF11 - NF12 - NF14)
+             ELSE IF i <= NF5 + NF9 + NF10 + NF11 + NF12 + NF14 + NF15 + NF16 THEN F16Case(i - NF5 - NF9 - NF10 - NF11 - NF12 - NF14 - NF15)
+             ELSE F17Case(i - NF5 - NF9 - NF10 - NF11 - NF12 - NF14 - NF15 - NF16)
 NFD == NF6 + NF13
 FDCase(i) == IF i <= NF6 THEN F6Case(i) ELSE F13Case(i - NF6)
 
 NCasesOf(f) == CASE f = "F1" -> NF1 [] f = "F2" -> NF2 [] f = "F3" -> NF3 [] f = "F4" -> NF4
-                 [] f = "F5" -> NF5 [] f = "F6" -> NF6 [] f = "F7" -> NF7 [] f = "F8" -> NF8 [] f = "F9" -> NF9 [] f = "F10" -> NF10 [] f = "F11" -> NF11 [] f = "F12" -> NF12 [] f = "F13" -> NF13 [] f = "F14" -> NF14 [] f = "F15" -> NF15 [] f = "FD" -> NFD [] f = "P" -> NP [] f = "PT" -> NPT [] f = "PS" -> NPS [] f = "FS" -> NFS
+                 [] f = "F5" -> NF5 [] f = "F6" -> NF6 [] f = "F7" -> NF7 [] f = "F8" -> NF8 [] f = "F9" -> NF9 [] f = "F10" -> NF10 [] f = "F11" -> NF11 [] f = "F12" -> NF12 [] f = "F13" -> NF13 [] f = "F14" -> NF14 [] f = "F15" -> NF15 [] f = "F16" -> NF16 [] f = "F17" -> NF17 [] f = "FD" -> NFD [] f = "P" -> NP [] f = "PT" -> NPT [] f = "PS" -> NPS [] f = "FS" -> NFS
 CaseAt(f, i) == CASE f = "F1" -> F1Case(i) [] f = "F2" -> F2Case(i) [] f = "F3" -> F3Case(i) [] f = "F4" -> F4Case(i)
-                  [] f = "F5" -> F5Case(i) [] f = "F6" -> F6Case(i) [] f = "F7" -> F7Case(i) [] f = "F8" -> F8Case(i) [] f = "F9" -> F9Case(i) [] f = "F10" -> F10Case(i) [] f = "F11" -> F11Case(i) [] f = "F12" -> F12Case(i) [] f = "F13" -> F13Case(i) [] f = "F14" -> F14Case(i) [] f = "F15" -> F15Case(i) [] f = "FD" -> FDCase(i) [] f = "P" -> PCase(i) [] f = "PT" -> PTCase(i) [] f = "PS" -> PSCase(i) [] f = "FS" -> FSCase(i)
+                  [] f = "F5" -> F5Case(i) [] f = "F6" -> F6Case(i) [] f = "F7" -> F7Case(i) [] f = "F8" -> F8Case(i) [] f = "F9" -> F9Case(i) [] f = "F10" -> F10Case(i) [] f = "F11" -> F11Case(i) [] f = "F12" -> F12Case(i) [] f = "F13" -> F13Case(i) [] f = "F14" -> F14Case(i) [] f = "F15" -> F15Case(i) [] f = "F16" -> F16Case(i) [] f = "F17" -> F17Case(i) [] f = "FD" -> FDCase(i) [] f = "P" -> PCase(i) [] f = "PT" -> PTCase(i) [] f = "PS" -> PSCase(i) [] f = "FS" -> FSCase(i)
 =============================================================================
